@@ -46,6 +46,18 @@ def make_case(seed, shard_index, i):
             s_[0] = nm
             s_[1] = [["F", nm, r[2], r[3], r[4], []] if r[0] == "F" else r for r in s_[1]]
         labels.add("null:haplotype-prefixed-names")
+    rn = rng_for(seed, "c08-contig-names", shard_index, i)
+    if not hapnames and "in:tpf" in labels and rn.random() < 0.15:
+        # contig names of the kind polishing and scaffolding tools leave behind: letters, digits, underscore, suffix
+        # (they look like an assembly-name prefix without being a haplotype name)
+        fam = rn.choice(["contig%d_pilon", "chr%d_random", "ptg%dl_arrow", "utg%d_1x"])
+        k_ = 0
+        for s_ in inp:
+            for r in s_[1]:
+                if r[0] == "F":
+                    k_ += 1
+                    r[1] = fam % k_
+        labels.add("null:contig-names-with-letters-digits-underscore-prefix")
     need = math.ceil(t) + 2
     for s in inp:
         r = [x for x in s[1] if x[0] == "F"][-1]
@@ -385,6 +397,7 @@ def gates(c, tier):
         "label:null:agp-known-length-gaps": 300,
         "label:null:texel-resolution-without-decimals": 300,
         "cli-null-fasta-ok:warm-cache": 100,
+        "label:null:contig-names-with-letters-digits-underscore-prefix": 500,
         "cli-null-fasta-ok:warm-cache:crlf": 30,
     }
     return [f"{k}>={v} (got {c.get(k, 0)})" for k, v in need.items() if c.get(k, 0) < v]
